@@ -1,6 +1,6 @@
 ---------------------------- MODULE Gen_Comp ----------------------------
 EXTENDS Comp, Json, CSV, IOUtils
-CodersAll == {<<"none", 0>>, <<"rle", 0>>, <<"skphuff", 1>>, <<"skphuff", 2>>, <<"skphuff", 4>>, <<"deflate", 1>>, <<"deflate", 6>>, <<"deflate", 9>>}
+CodersAll == {<<"none", 0>>, <<"rle", 0>>, <<"skphuff", 1>>, <<"skphuff", 2>>, <<"skphuff", 3>>, <<"skphuff", 4>>, <<"skphuff", 5>>, <<"skphuff", 7>>, <<"skphuff", 8>>, <<"deflate", 0>>, <<"deflate", 1>>, <<"deflate", 6>>, <<"deflate", 9>>}
 ChunksSmall == {<<"run", 1>>, <<"run", 3>>, <<"alt", 4>>, <<"ctr", 5>>}
 ChunksBig == {<<"run", 1>>, <<"run", 2>>, <<"run", 3>>, <<"run", 126>>, <<"run", 127>>, <<"run", 128>>, <<"run", 129>>, <<"run", 130>>, <<"run", 131>>,
               <<"alt", 2>>, <<"alt", 127>>, <<"alt", 128>>, <<"alt", 129>>, <<"ctr", 1>>, <<"ctr", 4>>, <<"ctr", 127>>, <<"ctr", 128>>, <<"ctr", 200>>}
